@@ -393,6 +393,16 @@ class Ctx:
                 return [z3.Empty(so) for s, so in ty.comps()]
             if isinstance(ty, DictT):
                 return self.empty_dict(ty).terms()
+        if isinstance(ty, ListT) and isinstance(v, VTuple):
+            # a display / slice with concretely many elements stored where a list is expected
+            cols = [self.store_terms(it, ty.t) for it in v.items]
+            out = []
+            for ci, (sfx, so) in enumerate(ty.comps()):
+                units = [z3.Unit(c[ci]) for c in cols]
+                out.append(z3.Empty(so) if not units else (units[0] if len(units) == 1 else z3.Concat(*units)))
+            return out
+        if isinstance(v, VChunks) and isinstance(ty, ListT) and v.items is not None:
+            return [z3.Concat(*[z3.Unit(t) for t in v.items]) if len(v.items) > 1 else z3.Unit(v.items[0])]
         if isinstance(v, VChunks):
             raise OutOfSubset('chunk list stored in a field')
         if isinstance(ty, TupleT):
